@@ -66,16 +66,33 @@ WHAT = {
 
 # instances run in the quick tier (one per builtin family, at its most telling length)
 QUICK = {
-    "c12_binary_get__9", "c12_binary_slice__3", "c12_binary_new", "c12_binary_repeat__3",
-    "c12_integer_bitwise", "c12_integer_shift", "c12_vector_get__8", "c12_rope_tiled__1", "c12_rope_tiled__2",
-    "c12_rope_zeroed__3", "c12_rope_tiled_small__2_0", "c12_rope_slice_window__0", "c12_rope_slice_window__1", "c12_rope_concat_pair",
+    "c12_binary_get__9", "c12_binary_slice__3", "c12_binary_new", "c12_binary_index__5",
+    "c12_binary_popcount_hash__3", "c12_binary_repeat__1", "c12_integer_bitwise", "c12_integer_shift",
+    "c12_vector_get__8", "c12_rope_tiled__1", "c12_rope_tiled__2", "c12_rope_zeroed__3",
+    "c12_rope_tiled_small__2_0", "c12_rope_slice_window__0", "c12_rope_slice_window__1", "c12_rope_concat_pair",
+    "c12_rope_slice__3_2_2",
 }
 
-# Harnesses that exist but are NOT part of the claim: CBMC runs out of memory on them (Vec-building
-# bodies, recursion through Rc children).  They can be run explicitly with C12_ONLY=<regex>.
-NOT_CLAIMED = {
-    r"c12_binary_set__": "CBMC out of memory / time-out (> 20 GB, > 20 min) on the 9-10 byte read-modify-write body",
-    r"c12_rope_slice__|c12_rope_slice_small__|c12_rope_concat__": "BinaryData::len/byte_at recurse through Rc children; CBMC cannot see the heap-resident variant and unwinds every arm at every level (out of memory)",
+# The claimed set: the harness instances CBMC finishes within 14 GB (measured; see DESIGN §2/§4).
+CLAIMED = QUICK | {
+    "c12_binary_concat_length__0_0", "c12_binary_get__0", "c12_binary_get__1", "c12_binary_get__8",
+    "c12_binary_index__0", "c12_binary_index__1", "c12_binary_logic__0_0", "c12_binary_logic__1_3",
+    "c12_binary_logic__3_1", "c12_binary_logic__3_3", "c12_binary_popcount_hash__0",
+    "c12_binary_popcount_hash__1", "c12_binary_repeat__0", "c12_binary_repeat__3", "c12_binary_shift__0",
+    "c12_binary_slice__0", "c12_binary_slice__6", "c12_rope_slice__2_3_0", "c12_rope_tiled_small__2_1",
+    "c12_rope_zeroed__0", "c12_vector_get__0", "c12_vector_get__3", "c12_vector_get__4", "c12_vector_take__0_0",
+}
+# run alone with 45 GB in the thorough tier (they need > 20 GB)
+HEAVY = {"c12_binary_shift__1", "c12_binary_shift__3"}
+
+# Everything else exists but is NOT part of the claim: CBMC exceeds the memory cap on it.  Such an
+# instance can be run explicitly with C12_ONLY=<regex> C12_MEM_GB=<n> C12_PAR=1.
+NOT_CLAIMED_WHY = {
+    r"c12_binary_set__": "time-out / out of memory (> 20 GB, > 20 min): 9-10 byte read-modify-write body",
+    r"c12_binary_(append|concat_length__(0_2|3_0|2_3))|c12_binary_shift__4|c12_vector_(push|elementwise|reduce)|c12_vector_take__[458]":
+        "out of memory at 14 GB: bodies that build result Vecs from non-empty inputs",
+    r"c12_rope_slice__4|c12_rope_slice__3_1_2|c12_rope_slice_small__|c12_rope_concat__|c12_rope_tiled_small__(1_3|2_2)":
+        "BinaryData::len/byte_at/find_byte recurse through Rc children; CBMC cannot see a heap-resident variant and unwinds every arm at every level (covered instead by the loop-free window/pair harnesses)",
 }
 
 
@@ -141,17 +158,19 @@ def concrete_values(scratch, name, timeout_s=900):
 def main():
     rep = Report("C12")
     tier = rep.tier
-    timeout_s = 900 if tier == "quick" else 3600
+    timeout_s = 900 if tier == "quick" else 1800
     mem_gb = int(os.environ.get("C12_MEM_GB", "9"))
-    hs = [h for h in discover() if tier == "thorough" or h[2]]
+    allh = discover()
     only = os.environ.get("C12_ONLY")
+    heavy = []
     if only:
-        hs = [h for h in discover() if re.search(only, h[0])]
+        hs = [h for h in allh if re.search(only, h[0])]
     else:
-        skipped = [h[0] for h in hs if any(re.search(rx, h[0]) for rx in NOT_CLAIMED)]
-        hs = [h for h in hs if h[0] not in skipped]
-        rep.extra["not_claimed_harnesses"] = {rx: why for rx, why in NOT_CLAIMED.items()}
-        rep.extra["not_claimed_instances"] = skipped
+        hs = [h for h in allh if (h[0] in QUICK if tier == "quick" else h[0] in CLAIMED)]
+        if tier == "thorough":
+            heavy = [h for h in allh if h[0] in HEAVY]
+        rep.extra["not_claimed_instances"] = sorted(h[0] for h in allh if h[0] not in CLAIMED and h[0] not in HEAVY)
+        rep.extra["not_claimed_why"] = NOT_CLAIMED_WHY
     scratch = tempfile.mkdtemp(prefix="qv-verif-c12.")
     try:
         prepare(scratch)
@@ -160,6 +179,9 @@ def main():
         with ThreadPoolExecutor(max_workers=PAR) as ex:
             rest = list(ex.map(lambda h: run_one(scratch, h[0], timeout_s, mem_gb), hs[1:]))
         results = [first] + rest
+        for h in heavy:
+            results.append(run_one(scratch, h[0], 2400, 45))
+        hs = hs + heavy
         qv_dev = None
         qv_rel = None
         for (name, what, _q), r in zip(hs, results):
